@@ -293,6 +293,10 @@ class Eyring(Expr):
 
     def __call__(self, variables, backend=math, **kwargs):
         c0, c1, conc0 = self.all_args(variables, backend=backend, **kwargs)
+        try:
+            c1 = c1.simplified
+        except AttributeError:
+            pass
         T = variables["temperature"]
         return c0 * T * backend.exp(-c1 / T) * conc0 ** (1 - kwargs["reaction"].order())
 
